@@ -1,6 +1,7 @@
 import TabulaModel.Util
 import TabulaModel.Model.Split
 import TabulaModel.Model.Overlap
+import TabulaModel.Model.Sentences
 /-!
 Line protocol of C13 (all byte strings lower-case hex, `-` = empty):
 
@@ -10,9 +11,24 @@ Line protocol of C13 (all byte strings lower-case hex, `-` = empty):
 * `c13.ovl <strategy>:<size>:<min>:<max>:<preserveWords>:<ctx> <classes> <titles> <chunks>`
   → `[has/prefix/text,…]` (`ApplyOverlapToChunks`; strategy 0 none, 1 character, 2 sentence,
   3 paragraph; classes = `cp.flags.lower,…` for every non-ASCII character, flags 1 upper,
-  2 letter, 4 digit, 8 space; `-` if none)
+  2 letter, 4 digit, 8 space, 16 lower-case; `-` if none)
 * `c13.cwo <overlapSize>:<sentences>:<ctx> <classes> <titles> <chunks>` → same, with the
   overlap configuration derived as `ChunkWithOverlapEnabled` derives it.
+* `c13.splitb <cfg> <pos:score,…> <text>` → `[p1,…]` (`SplitToSize(text, boundaries)`)
+* `c13.fsp <cfg> <limit> <unit> <pos:score,…> <text>` → split position
+  (`FindSplitPointAt`, and `FindSplitPoint` with that target)
+* `c13.size <cfg> <text>` → `chars:tokens:words:sentences:paragraphs` (`Calculate`)
+* `c13.preset <name> [<max>]` → `<cfg>` of the preset constructor
+* `c13.sent <classes> <text>` → `[s1,…]` (`splitIntoSentences` of chunker.go)
+* `c13.chunk <max>:<min> <classes> <paras>` → chunk texts of `Chunker.Chunk` on a document of
+  layout paragraphs
+* `c13.cwe <max>:<min>:<overlapSize>:<sentences>:<ctx> <classes> <paras>` → `[has/prefix/text,…]`
+  of `Chunker.ChunkWithOverlapEnabled` on the same kind of document (end to end)
+* `c13.docp <cfg> <page1>;<page2>;…` → chunk texts of `ChunkDocumentWithConfig` on several pages
+  (each page a list of paragraphs, `_` = no paragraph)
+* `c13.nonspace <text>` → the text without its White_Space characters (`stripWs`, the
+  specification-side function of the conservation theorems; the harness computes it from
+  `unicode.IsSpace`)
 -/
 namespace Tabula.C13H
 open Tabula Tabula.Split Tabula.Overlap
@@ -51,7 +67,7 @@ def parseClass (s : String) : Option (Nat × RuneClass) :=
     let f ← f.toNat?
     let lo ← lo.toNat?
     pure (cp, { upper := f % 2 == 1, letter := f / 2 % 2 == 1, digit := f / 4 % 2 == 1,
-                space := f / 8 % 2 == 1, lower := lo })
+                space := f / 8 % 2 == 1, lower := lo, isLower := f / 16 % 2 == 1 })
   | _ => none
 
 def parseClasses (s : String) : Option (List (Nat × RuneClass)) :=
@@ -68,7 +84,76 @@ def parseOvlCfg (s : String) : Option OverlapConfig :=
            preserveWords := pw == 1, includeHeadingContext := ctx == 1 }
   | _ => none
 
+def parseBoundary (s : String) : Option Boundary :=
+  match s.splitOn ":" with
+  | [p, sc] => do
+    let p ← p.toNat?
+    let sc ← sc.toInt?
+    pure { pos := p, score := sc }
+  | _ => none
+
+def parseBoundaries (s : String) : Option (List Boundary) :=
+  if s == "-" then some [] else (s.splitOn ",").mapM parseBoundary
+
+def unitNo : SizeUnit → Nat
+  | .characters => 0 | .tokens => 1 | .words => 2 | .sentences => 3 | .paragraphs => 4
+
+def dumpCfg (c : SizeConfig) : String :=
+  s!"{unitNo c.maxUnit}:{c.maxValue}:{c.tpcNum}/{c.tpcDen}:{if c.sem then 1 else 0}"
+
+/-- the ops added by the deepening round (entry points, boundaries, presets) -/
+def handleApi (op : String) (args : List String) : Option String :=
+  match op, args with
+  | "c13.splitb", [cfg, bs, text] =>
+    match parseCfg cfg, parseBoundaries bs, unhexS text with
+    | some c, some bs, some t => some (dumpList (splitToSize c t bs))
+    | _, _, _ => some "bad-op"
+  | "c13.fsp", [cfg, limit, unit, bs, text] =>
+    match parseCfg cfg, limit.toNat?, unit.toNat? >>= unitOf, parseBoundaries bs, unhexS text with
+    | some c, some l, some u, some bs, some t => some (toString (findSplitPoint c t bs l u))
+    | _, _, _, _, _ => some "bad-op"
+  | "c13.size", [cfg, text] =>
+    match parseCfg cfg, unhexS text with
+    | some c, some t =>
+      let m := calculate c t
+      some s!"{m.characters}:{m.tokens}:{m.words}:{m.sentences}:{m.paragraphs}"
+    | _, _ => some "bad-op"
+  | "c13.sent", [classes, text] =>
+    match parseClasses classes, unhexS text with
+    | some cl, some t => some (dumpList (Tabula.Sentences.splitIntoSentences cl t))
+    | _, _ => some "bad-op"
+  | "c13.chunk", [cfg, classes, paras] =>
+    match (cfg.splitOn ":").mapM String.toNat?, parseClasses classes, parseHexList paras with
+    | some [mx, mn], some cl, some ps => some (dumpList (Tabula.Sentences.chunkParagraphDoc cl mx mn ps))
+    | _, _, _ => some "bad-op"
+  | "c13.cwe", [cfg, classes, paras] =>
+    match (cfg.splitOn ":").mapM String.toNat?, parseClasses classes, parseHexList paras with
+    | some [mx, mn, size, sent, ctx], some cl, some ps =>
+      some (dumpOvl (Tabula.Sentences.chunkWithOverlapEnabled cl mx mn size (sent == 1) (ctx == 1) ps))
+    | _, _, _ => some "bad-op"
+  | "c13.docp", [cfg, pages] =>
+    match parseCfg cfg, (pages.splitOn ";").mapM (fun p => if p == "_" then some [] else parseHexList p) with
+    | some c, some ps => some (dumpList (docChunksPages c ps))
+    | _, _ => some "bad-op"
+  | "c13.nonspace", [text] =>
+    match unhexS text with
+    | some t => some (hexS (stripWs t))
+    | none => some "bad-op"
+  | "c13.preset", [name] =>
+    match presetByName name with
+    | some c => some (dumpCfg c)
+    | none => some "bad-op"
+  | "c13.preset", [name, mx] =>
+    match name, mx.toNat? with
+    | "token", some m => some (dumpCfg (tokenBasedSizeConfig m))
+    | "semantic", some m => some (dumpCfg (semanticSizeConfig m))
+    | _, _ => some "bad-op"
+  | _, _ => none
+
 def handle (op : String) (args : List String) : String :=
+  match handleApi op args with
+  | some r => r
+  | none =>
   match op, args with
   | "c13.split", [cfg, text] =>
     match parseCfg cfg, unhexS text with
